@@ -309,6 +309,10 @@ func init() {
 		Assumptions: []string{seqAssumption, "the combination non-exit error + allow_failure + fail-fast is a genuine race between the cancel goroutine and the scheduler loop: the oracle accepts both orders there (three-valued verdict)"},
 		Cases:       func(t string) int { return tierN(t, 1200, 30000) },
 		RunCase: func(c *CaseCtx) *CaseResult {
+			if c.Idx%40 == 9 {
+				// real task runner: a task that fails before its script runs (allowed or not, fail-fast or not)
+				return simpleCase(c, drv.RunEarlyFailureCase(c.Seed, c.TmpDir, c.Idx/40), 10)
+			}
 			if c.Idx%40 == 19 {
 				// fail-fast also holds while a graceful shutdown is waiting for the job
 				return simpleCase(c, drv.RunShutdownDirectedCase(c.Seed, 0), 50)
@@ -546,6 +550,12 @@ func init() {
 			o.StoreDir = c.TmpDir
 			o.RichVars = true
 			o.HTTP = c.Idx%2 == 0 // half of the histories schedule over HTTP (the payload is decoded by the server then)
+			if c.Idx%4 == 1 {
+				// several pipelines with retention_count: what a save kept is what the restarted runner reports (retention is
+				// per pipeline, also at load time)
+				o.NPipes = 3
+				o.Retention = true
+			}
 			o.FailProb = 0.3
 			o.Pipe.AllowFailureProb = 0.3
 			o.MaxOps = 26
